@@ -1,0 +1,89 @@
+//go:build verif
+
+// Contracts for the deductive verifier in /verif (comment-only file).
+// Property C11, per function. The goroutine bodies are verified on their own
+// (the verifier explores no interleavings; errgroup is an assumed contract:
+// Wait returns nil only if every function returned nil).
+package mirrored
+
+// selRep(s): the replicator a selector closure was created with.
+//@ ghost selRep(ref) int
+
+// Reads alternate between the replicas; the replicator that goes with the
+// replica consulted first copies INTO that replica (B->A when A is first).
+//@ func (*mirroredBlobAccess).getBlobReplicatorSelector
+//@   opt wraps
+//@   requires ba.backendA != nil && ba.backendB != nil
+//@   exitghost selRep(result1) := replicator
+//@   ensures [repair-goes-to-the-replica-consulted-first] (result0 == ba.backendA && selRep(result1) == ba.replicatorBToA)
+//@         || (result0 == ba.backendB && selRep(result1) == ba.replicatorAToB)
+//@   ensures result1 != nil
+
+// The selector: any failure other than NOT_FOUND is surfaced with its code;
+// the other replica is consulted at most once.
+//@ func (*mirroredBlobAccess).getBlobReplicatorSelector$1
+//@   requires observedErr != nil
+//@   ensures [failure-surfaced] code(observedErr) != NotFound ==> result0 == nil && result1 != nil && code(result1) == code(observedErr)
+//@         && replicator == old(replicator)
+//@   ensures [second-not-found-is-final] code(observedErr) == NotFound && old(replicator) == nil ==> result0 == nil && result1 == observedErr
+//@   ensures [other-replica-at-most-once] code(observedErr) == NotFound && old(replicator) != nil ==>
+//@         result0 == old(replicator) && result1 == nil && replicator == nil
+
+// Uploads: the buffer is cloned and each clone goes to one replica; a replica's
+// failure is reported with its code.
+//@ func (*mirroredBlobAccess).Put
+//@   requires b != nil && ba.backendA != nil && ba.backendB != nil
+//@ func (*mirroredBlobAccess).Put$1
+//@   requires ba.backendA != nil && b1 != nil
+//@   ensures [replica-a-written] baCalls(ba.backendA) == old(baCalls(ba.backendA)) + 1
+//@   ensures [failure-surfaced] (result == nil) <==> (baPutErr(ba.backendA) == nil)
+//@   ensures result != nil ==> code(result) == code(baPutErr(ba.backendA))
+//@ func (*mirroredBlobAccess).Put$2
+//@   requires ba.backendB != nil && b2 != nil
+//@   ensures [replica-b-written] baCalls(ba.backendB) == old(baCalls(ba.backendB)) + 1
+//@   ensures [failure-surfaced] (result == nil) <==> (baPutErr(ba.backendB) == nil)
+//@   ensures result != nil ==> code(result) == code(baPutErr(ba.backendB))
+
+// FindMissing: both replicas are asked about the whole set; what is missing
+// from exactly one is copied from the other, in the right direction; the
+// answer is what both lack. NOT_FOUND from a replicator (the source lost the
+// object meanwhile) is reported as INTERNAL, never as "missing".
+//@ func (*mirroredBlobAccess).FindMissing$1
+//@   requires ba.backendA != nil
+//@   ensures [asked-about-everything] baCalls(ba.backendA) == old(baCalls(ba.backendA)) + 1 && fmArg(ba.backendA) == base(digests.digests)
+//@   ensures [failure-surfaced] (result == nil) <==> (fmErr(ba.backendA) == nil)
+//@   ensures result != nil ==> code(result) == code(fmErr(ba.backendA))
+//@   ensures [answer-kept] result == nil ==> base(resultsA.digests) == fmRes(ba.backendA)
+//@ func (*mirroredBlobAccess).FindMissing$2
+//@   requires ba.backendB != nil
+//@   ensures [asked-about-everything] baCalls(ba.backendB) == old(baCalls(ba.backendB)) + 1 && fmArg(ba.backendB) == base(digests.digests)
+//@   ensures [failure-surfaced] (result == nil) <==> (fmErr(ba.backendB) == nil)
+//@   ensures result != nil ==> code(result) == code(fmErr(ba.backendB))
+//@   ensures [answer-kept] result == nil ==> base(resultsB.digests) == fmRes(ba.backendB)
+//@ func (*mirroredBlobAccess).FindMissing$3
+//@   requires ba.replicatorAToB != nil
+//@   ensures [a-to-b-copies-what-b-lacks] repMulti(ba.replicatorAToB) == old(repMulti(ba.replicatorAToB)) + 1
+//@         && repMultiArg(ba.replicatorAToB) == base(missingFromB.digests)
+//@   ensures [never-not-found] result != nil ==> code(result) != NotFound
+//@   ensures [failure-surfaced] (result == nil) <==> (repErr(ba.replicatorAToB) == nil)
+//@ func (*mirroredBlobAccess).FindMissing$4
+//@   requires ba.replicatorBToA != nil
+//@   ensures [b-to-a-copies-what-a-lacks] repMulti(ba.replicatorBToA) == old(repMulti(ba.replicatorBToA)) + 1
+//@         && repMultiArg(ba.replicatorBToA) == base(missingFromA.digests)
+//@   ensures [never-not-found] result != nil ==> code(result) != NotFound
+//@   ensures [failure-surfaced] (result == nil) <==> (repErr(ba.replicatorBToA) == nil)
+// The goroutines share resultsA/resultsB/missingFromA/missingFromB with this
+// function, so their values are pinned down (ghost snapshots) at the point
+// where the second group is created, right after the set algebra.
+//@ ghost mSnapA int
+//@ ghost mSnapB int
+//@ ghost mSnapMA int
+//@ ghost mSnapMB int
+//@ func (*mirroredBlobAccess).FindMissing
+//@   requires ba.backendA != nil && ba.backendB != nil && ba.replicatorAToB != nil && ba.replicatorBToA != nil
+//@   atcall WithContext mSnapA := base(resultsA.digests)
+//@   atcall WithContext mSnapB := base(resultsB.digests)
+//@   atcall WithContext mSnapMA := base(missingFromA.digests)
+//@   atcall WithContext mSnapMB := base(missingFromB.digests)
+//@   ensures [reports-what-both-lack] result1 == nil ==> base(result0.digests) == gdiBoth(mSnapA, mSnapB)
+//@   ensures [directions] result1 == nil ==> mSnapMA == gdiOnlyA(mSnapA, mSnapB) && mSnapMB == gdiOnlyB(mSnapA, mSnapB)
